@@ -424,6 +424,12 @@ OkC05(m, o) ==
                                    \* that stands behind the integrity attributes / FINGERPRINT)
                                    /\ (("nadm" \in DOMAIN o.arg.d /\ "nattrs" \in DOMAIN o.ev[i])
                                          => o.ev[i].nattrs = o.arg.d.nadm)
+                                   /\ (("method" \in DOMAIN o.arg.d /\ "method" \in DOMAIN o.ev[i])
+                                         => o.ev[i].method = o.arg.d.method)
+    \* without a credential mechanism a received message can only be delivered or refused: it never makes
+    \* a request fail or asks for a retry
+    /\ (m.cfg.mech = "none" /\ o.op = "recv") =>
+          \A i \in DOMAIN o.ev : o.ev[i].k \notin {"failed", "retry"}
                                    /\ o.ev[i].cls \in {"success", "error", "indication"}
     \* direct leak check through the snapshot hook: table and timer entries are exactly the
     \* pending requests, one timer entry each
